@@ -269,3 +269,15 @@ def rehome(blob, server_index, cap_w):
     wk = _uri.from_string(cap_w).writekey
     sid = grid.server_id(server_index)
     return blob[:32] + sid + _hu.ssk_write_enabler_hash(wk, sid) + blob[84:]
+
+
+EPOCH = 1700000000.0
+
+
+def reset_clock():
+    """Put the virtual clock back to a fixed epoch before an execution (possible whenever no timer is
+    pending, which Grid.close() guarantees).  Timestamps end up inside hashed tuples in the servermap,
+    so without this the iteration order of a set - and with it which of two copies of a share number
+    Retrieve picks - would depend on how much this worker process had executed before."""
+    if not boot.R.getDelayedCalls():
+        boot.R.rightNow = EPOCH
